@@ -223,8 +223,17 @@ func (p *c10) roundTrip(x *res, item val.Item, ctx *runner.Ctx) {
 		it["h"] = val.Str("k")
 		it["r"] = val.Str("s")
 		key := val.Item{"h": val.Str("k"), "r": val.Str("s")}
+		// every third item holds one of its values at SEVERAL places - a second attribute and twice in a list - and, through
+		// the SDK v1 client (whose values are pointers), the caller built that value once: one object, used three times
+		shared := len(attrs) > 0 && len(item.Canon())%3 == 0
+		if shared {
+			v := item[attrs[0]]
+			it["twin_of_"+attrs[0]] = v
+			it["twins"] = val.List(v, val.Map(map[string]val.V{"again": v}), v)
+			x.r.Counters["items_with_one_value_object_at_several_places"]++
+		}
 		ctx.Trace("%s put %s", adapter, it.Canon())
-		put := cl.Do(adapt.Op{Kind: adapt.OpPut, Table: spec.Name, Item: it})
+		put := cl.Do(adapt.Op{Kind: adapt.OpPut, Table: spec.Name, Item: it, SharePtrs: shared})
 		sk := ""
 		nt := false
 		for k, v := range item {
